@@ -5,7 +5,8 @@ Import ListNotations.
 Require Import Fggs.Model.Axis Fggs.Model.AxisCheck Fggs.Model.AxisEnum Fggs.Model.XVal Fggs.Model.PTensor Fggs.Model.PTensorCheck.
 Require Import Fggs.Proofs.Axis_sem Fggs.Proofs.Axis_unify Fggs.Proofs.Axis_antiunify Fggs.Proofs.Axis_complete Fggs.Proofs.Axis_repr.
 Require Import Fggs.Proofs.PTensor_sem Fggs.Proofs.PTensor_dense Fggs.Proofs.PTensor_views Fggs.Proofs.PTensor_unary.
-Require Import Fggs.Proofs.PTensor_binary Fggs.Proofs.PTensor_xval Fggs.Proofs.PTensor_transpose.
+Require Import Fggs.Proofs.PTensor_binary Fggs.Proofs.PTensor_xval Fggs.Proofs.PTensor_transpose Fggs.Proofs.PTensor_expand.
+Require Import Fggs.Proofs.Axis_antiunify_inv.
 Local Open Scope nat_scope.
 
 (** * L2: the axis algebra *)
@@ -169,6 +170,15 @@ Theorem C06_flatten : forall (V : Type) (t : ptensor V) idx,
   denote V (pt_flatten V t) [flat_offset (shape V t) idx] = denote V t idx.
 Proof. exact flatten_refines. Qed.
 Print Assumptions C06_flatten.
+
+(** expand: dense broadcasting -- new leading dimensions are dropped and every size-1 dimension of the
+    operand is read at 0 ([bidxr], on reversed lists as the code processes them) *)
+Theorem C06_expand : forall (V : Type) (t t' : ptensor V) sizes next next' idx,
+  wf V t -> (forall e, In e (vaxes t) -> below next e) ->
+  pt_expand V sizes next t = Some (t', next') -> Forall2 lt idx sizes ->
+  denote V t' idx = denote V t (rev (bidxr (rev (vaxes t)) (rev idx))).
+Proof. exact expand_refines. Qed.
+Print Assumptions C06_expand.
 
 (** unary maps: pointwise, provided the new default is the map of the old default *)
 Theorem C06_unary_map : forall (V : Type) (f : V -> V) fd (t : ptensor V) idx,
